@@ -30,6 +30,10 @@ ROWS = [1, 2, 3, 4]
 COLS = [1, 2, 3, 4, 5, 6]
 # wide matrices (SIMD / unrolling boundaries), each crossed with a few styles per run
 WIDE_SHAPES = [(1, 16), (2, 17), (3, 15), (4, 32), (5, 33), (6, 31), (7, 40), (8, 8), (8, 40), (5, 7), (8, 1), (6, 2), (7, 3), (1, 40), (2, 24)]
+# long sample sets (chunked / blocked accumulation boundaries: every power of two up to 1024, multiples of 256, and
+# their neighbours): all of them in every run, two styles each
+LONG_SHAPES = [(1, 63), (2, 64), (1, 65), (1, 96), (1, 127), (2, 128), (1, 129), (1, 192), (1, 255), (2, 256), (1, 256), (1, 257),
+               (1, 384), (1, 511), (1, 512), (1, 513), (1, 768), (1, 1023), (1, 1024), (1, 1025)]
 ROWS_ALL = [1, 2, 3, 4, 5, 6, 7, 8]
 COLS_ALL = [1, 2, 3, 4, 5, 6, 7, 8, 12, 15, 16, 17, 24, 31, 32, 33, 40]
 
@@ -117,6 +121,8 @@ def gen_addsub(g, shapes, n_extra):
     for sh in WIDE_SHAPES:
         for st in r.sample(STYLES, 3):
             todo.append((sh[0], sh[1], st))
+    for sh in LONG_SHAPES:
+        todo.append((sh[0], sh[1], r.choice(STYLES)))
     for _ in range(n_extra):
         todo.append(extra_shape(r) + (r.choice(STYLES),))
     for rows, cols, st in todo:
@@ -289,6 +295,9 @@ def gen_mean(g, shapes, n_extra, stats):
     todo = [(rows, cols, st) for (rows, cols) in shapes for st in MEAN_STYLES]
     for sh in WIDE_SHAPES:
         for st in r.sample(MEAN_STYLES[:-1], 4):
+            todo.append((sh[0], sh[1], st))
+    for sh in LONG_SHAPES:
+        for st in r.sample(MEAN_STYLES[:-1], 2):
             todo.append((sh[0], sh[1], st))
     for _ in range(n_extra):
         todo.append(extra_shape(r) + (r.choice(MEAN_STYLES),))
